@@ -52,13 +52,26 @@ func pToInts(b []byte) []int {
 type pOutput struct {
 	mu sync.Mutex
 	b  []byte
+	t0 time.Time
+	// one entry per Write call that carries painted text (not only control sequences): microseconds since t0, length
+	paints [][2]int64
 }
 
 func (o *pOutput) Write(p []byte) (int, error) {
 	o.mu.Lock()
 	o.b = append(o.b, p...)
+	if len(o.paints) < 20000 && len(p) > 0 && !o.t0.IsZero() {
+		o.paints = append(o.paints, [2]int64{time.Since(o.t0).Microseconds(), int64(len(p))})
+	}
 	o.mu.Unlock()
 	return len(p), nil
+}
+
+func (o *pOutput) Writes() [][2]int64 {
+	o.mu.Lock()
+	c := append([][2]int64{}, o.paints...)
+	o.mu.Unlock()
+	return c
 }
 
 func (o *pOutput) Len() int {
@@ -173,6 +186,7 @@ type harnessState struct {
 
 	scratch    []tea.Cmd
 	dropped    map[string]int
+	cmdCache   map[*pCmdSpec]tea.Cmd
 	lastKey    atomic.Value // key of the message of the most recent Update
 	afterFired int32
 
@@ -181,11 +195,11 @@ type harnessState struct {
 
 func newHarnessState(sc *pScenario) *harnessState {
 	h := &harnessState{
-		sc: sc, t0: time.Now(), out: &pOutput{}, ch: make(chan struct{}),
+		sc: sc, t0: time.Now(), out: &pOutput{t0: time.Now()}, ch: make(chan struct{}),
 		paused: map[string]int{}, permits: map[string]int{}, open: map[string]bool{},
 		gates: map[string]chan struct{}{}, sendDone: make([]bool, len(sc.Senders)),
 		forever:    make(chan struct{}),
-		filterDrop: map[string]bool{}, filterPause: map[string]bool{}, filterPanic: map[string]bool{}, dropped: map[string]int{},
+		filterDrop: map[string]bool{}, filterPause: map[string]bool{}, filterPanic: map[string]bool{}, dropped: map[string]int{}, cmdCache: map[*pCmdSpec]tea.Cmd{},
 	}
 	if f := sc.Opts.Filter; f != nil {
 		for _, k := range f.Drop {
@@ -462,7 +476,8 @@ func (h *harnessState) buildMsg(ms *pMsgSpec) tea.Msg {
 	case "windowsize":
 		return tea.WindowSize()()
 	case "print":
-		return tea.VerifPrintLineMsg(ms.S)
+		// through the public constructor (tea.Println), as a program would
+		return tea.Println(ms.S)()
 	case "title":
 		return tea.SetWindowTitle(ms.S)()
 	case "repaint":
@@ -510,6 +525,21 @@ func (h *harnessState) buildMsg(ms *pMsgSpec) tea.Msg {
 func (h *harnessState) buildCmd(cs *pCmdSpec) tea.Cmd {
 	if cs == nil {
 		return nil
+	}
+	if cs.Cache {
+		h.mu.Lock()
+		c, ok := h.cmdCache[cs]
+		h.mu.Unlock()
+		if ok {
+			return c
+		}
+		cp := *cs
+		cp.Cache = false
+		c = h.buildCmd(&cp)
+		h.mu.Lock()
+		h.cmdCache[cs] = c
+		h.mu.Unlock()
+		return c
 	}
 	switch {
 	case cs.Batch != nil && cs.Reuse:
